@@ -397,6 +397,40 @@ def oracle_only_stream(ctx):
                     ctx.case((mode, fmt, msh_only, name, tuple(present)), sample={**case, 'raised': err}, nontrivial=True)
                     ctx.count(f'oracle-only:{mode}:' + (err or 'ok'))
                     _oracle(ctx, mode, fmt, name, case, err, before, after)
+    # (a'') exotic spellings of the target (oracle only; the model is not run on them): a path that leaves a not-yet-existing
+    #       directory again (`out/run1/../mesh`), glob meta-characters, blanks, non-ASCII, dots in directory names.  Candidates =
+    #       the typed / final names at their RESOLVED location + whatever the writer touches in an otherwise empty directory.
+    exotic = [('dotdot-through-missing-dir', 'out/run1/../mesh', ['out']), ('dotdot-deeper', 'runs/0001/../../latest/mesh', ['latest']),
+              ('glob-brackets', 'model[1]', []), ('glob-brackets-in-dir', 'out/step[10]', ['out']), ('glob-star', 'me*sh', []),
+              ('glob-question', 'mesh?', []), ('blank', 'my mesh', []), ('non-ascii', 'm\u00e9sh', []), ('dot-in-dir', 'a.b/mesh', ['a.b']),
+              ('trailing-dot', 'mesh.', []), ('leading-dot', '.mesh', [])]
+    for fmt, msh_only in FORMATS:
+        for sclass, stem, mkdirs in exotic:
+            for name in (stem, stem + '.' + EXT[fmt]) if fmt in EXT else (stem,):
+                cand0, _ = candidates(fmt, name)
+                cand = []
+                for c in cand0:
+                    c = os.path.normpath(c)
+                    if c not in cand:
+                        cand.append(c)
+                try:
+                    for q in discover(ctx, fd0, fmt, msh_only, name, mkdirs):
+                        if q not in cand and len(cand) < 7:
+                            cand.append(q)
+                except Exception:
+                    pass
+                subsets = [(c,) for c in cand] + [tuple(cand)]
+                for present in subsets:
+                    try:
+                        err, before, after = run_real(ctx, fd0, fmt, msh_only, name, mkdirs, list(present), False)
+                    except OSError as e:       # the harness could not even create the pre-existing files (illegal name): skip
+                        ctx.count(f'oracle-only:spelling:{sclass}:not-creatable:{type(e).__name__}')
+                        continue
+                    case = {'stream': 'exotic-spelling', 'format': fmt, 'write_msh_only': msh_only, 'spelling': sclass, 'name': name,
+                            'mkdirs': mkdirs, 'pre_existing': list(present), 'overwrite': False}
+                    ctx.case(('exotic', fmt, msh_only, name, tuple(present)), sample={**case, 'raised': err}, nontrivial=True)
+                    ctx.count(f'oracle-only:spelling:{sclass}:' + (err or 'ok'))
+                    _oracle(ctx, 'spelling:' + sclass, fmt, name, case, err, before, after)
     # (b) default name
     def prepare(root):
         (root / 'in').mkdir(exist_ok=True)
@@ -434,7 +468,7 @@ def replay(ctx, obj):
         return {'case': case, 'note': 'default-name stream: re-run the check to reproduce', 'fails': False}
     cand, ctrl = candidates(case['format'], case['name'])
     sp = {s[1]: s[2] for s in spellings(case['format'])}
-    mk = sp.get(case['name'], [])
+    mk = case.get('mkdirs', sp.get(case['name'], []))
     content = None
     if stream in ('earlier-output-edited', 'other-model-output'):
         early = earlier_outputs(ctx, fd, case['format'], case['write_msh_only'], case['name'], mk,
